@@ -160,6 +160,15 @@ func runTwinStream(seed int64, n int, out, backendSpec string) *RunReport {
 					}
 				}
 			}
+			// In on an indexed field with operands that are references to another field (in both spellings) next to literals:
+			// whatever range the planner derives from the literals must not hide documents matching through the reference
+			for _, fld := range []string{"a", "b", "x"} {
+				other := map[string]string{"a": "b", "b": "a", "x": "a"}[fld]
+				for _, ref := range []Operand{{Lit: "$" + other}, {IsRef: true, Ref: other}} {
+					fixed = append(fixed, QSpec{Coll: "t0", Steps: []QStep{{Kind: "where", C: &Crit{Kind: "in", Field: fld, Vals: []Operand{{Lit: int(g.Intn(3))}, {Lit: int(3 + g.Intn(2))}, ref}}}}})
+					fixed = append(fixed, QSpec{Coll: "t0", Steps: []QStep{{Kind: "where", C: &Crit{Kind: "in", Field: fld, Vals: []Operand{ref, {Lit: "a"}}}}, {Kind: "sort", Opts: []SortOpt{{fld, 1}}}}})
+				}
+			}
 			// conjunctions of two bounds on one field, every pairing of inclusive / exclusive / equality, literals on and next to each other
 			for _, fld := range []string{"a", "b", "x"} {
 				for _, op1 := range []string{"OGt", "OGtEq", "OLt", "OLtEq", "OEq"} {
